@@ -59,14 +59,21 @@ def strOps : List (String × StrOps Nat) :=
    ("predicates: even, str methods: mod 2, int(n) = n - 1 below 2", ⟨fun _ n => n % 2 == 0, fun _ n => n % 2,
       fun n => if n < 2 then some ((n : Int) - 1) else none, fun s => s.length % 3⟩)]
 
+/-- Instances of "the other texts a column carries, read as names" (`ColText`): identities are `10 + position` here, so
+"the identity read as a name" is `identity - 10` (every key 0..3 is then some column's identity in a schema wide enough,
+and rarely that column's name); then a constant (every column carries the text 1). -/
+def colTexts : List (String × ColText Nat Nat) :=
+  [("a column's other texts read as names: its identity - 10", ⟨fun _ c => c.identity - 10⟩),
+   ("a column's other texts read as names: all 1", ⟨fun _ _ => 1⟩)]
+
 def checkAllNames (f : C → List Nat) : Option String :=
   firstSome ((tagged kinds)) (fun c =>
     if f c = c.allNames then none else some s!"all_names of {repr c}: generated {f c}, model {c.allNames}")
 
-def checkFind (f : StrOps Nat → (Nat → Nat) → S → Nat → Bool → Option C) : Option String :=
-  firstSome strOps (fun (lbl, so) => firstSome lookupSchemas (fun s => firstSome keys (fun k => firstSome [false, true] (fun ci =>
-    if f so lower s k ci = find lower s.columns k ci then none
-    else some s!"find_column({k}, case_insensitive={ci}) on {repr s.columns} [{lbl}]: generated {repr (f so lower s k ci)}, model {repr (find lower s.columns k ci)}"))))
+def checkFind (f : StrOps Nat → ColText Nat Nat → (Nat → Nat) → S → Nat → Bool → Option C) : Option String :=
+  firstSome colTexts (fun (lblT, ct) => firstSome strOps (fun (lbl, so) => firstSome lookupSchemas (fun s => firstSome keys (fun k => firstSome [false, true] (fun ci =>
+    if f so ct lower s k ci = find lower s.columns k ci then none
+    else some s!"find_column({k}, case_insensitive={ci}) on {repr s.columns} [{lbl}; {lblT}]: generated {repr (f so ct lower s k ci)}, model {repr (find lower s.columns k ci)}")))))
 
 def columnKeys : List (Key Nat) :=
   [.idx (-4), .idx (-3), .idx (-2), .idx (-1), .idx 0, .idx 1, .idx 2, .idx 3, .flag true, .flag false,
@@ -81,15 +88,15 @@ def isOk (r : Except String (Out Nat Nat)) (o : Out Nat Nat) : Bool :=
   | .ok o' => decide (o' = o)
   | .error _ => false
 
-def checkColumn (f : StrOps Nat → S → Key Nat → Except String (Out Nat Nat)) : Option String :=
-  firstSome strOps (fun (lbl, so) => firstSome lookupSchemas (fun s => firstSome columnKeys (fun k =>
-    if isOk (f so s k) (column s.columns k) then none
-    else some s!"column({repr k}) on {repr s.columns} [{lbl}]: generated {showExcept (f so s k)}, model {repr (column s.columns k)}")))
+def checkColumn (f : StrOps Nat → ColText Nat Nat → S → Key Nat → Except String (Out Nat Nat)) : Option String :=
+  firstSome colTexts (fun (lblT, ct) => firstSome strOps (fun (lbl, so) => firstSome lookupSchemas (fun s => firstSome columnKeys (fun k =>
+    if isOk (f so ct s k) (column s.columns k) then none
+    else some s!"column({repr k}) on {repr s.columns} [{lbl}; {lblT}]: generated {showExcept (f so ct s k)}, model {repr (column s.columns k)}"))))
 
-def checkPop (f : StrOps Nat → S → Nat → Option C × List C) : Option String :=
-  firstSome strOps (fun (lbl, so) => firstSome lookupSchemas (fun s => firstSome keys (fun k =>
-    if f so s k = popCol k s.columns then none
-    else some s!"pop_column({k}) on {repr s.columns} [{lbl}]: generated {repr (f so s k)}, model {repr (popCol k s.columns)}")))
+def checkPop (f : StrOps Nat → ColText Nat Nat → S → Nat → Option C × List C) : Option String :=
+  firstSome colTexts (fun (lblT, ct) => firstSome strOps (fun (lbl, so) => firstSome lookupSchemas (fun s => firstSome keys (fun k =>
+    if f so ct s k = popCol k s.columns then none
+    else some s!"pop_column({k}) on {repr s.columns} [{lbl}; {lblT}]: generated {repr (f so ct s k)}, model {repr (popCol k s.columns)}"))))
 
 def checkNames (cn it acn : S → List Nat) (nc : S → Nat) : Option String :=
   firstSome lookupSchemas (fun s =>
@@ -112,5 +119,24 @@ def checkAdd (f : S → S → S) : Option String :=
     let sb : S := { name := 9, aliases := [5], columns := b }
     if f sa sb = union sa sb then none
     else some s!"{repr sa} + {repr sb}: generated {repr (f sa sb)}, model {repr (union sa sb)}")))
+
+/-- iteration in progress: every schema of ≤ 3 columns over the names 0, 1, 2 (no aliases) -/
+def iterSchemas : List S :=
+  (listsUpTo [((0 : Nat), (none : Option (List Nat))), (1, none), (2, none)] 3).map (fun l => { name := 7, aliases := [8], columns := tagged l })
+
+/-- an iterator obtained, advanced 0, 1 or 2 steps, a removal, the iterator advanced and drained -/
+def iterProgs : List (List (IOp Nat)) :=
+  [[.mk 0, .ask 0 .drain], [.mk 0, .ask 0 .next, .ask 0 .next, .ask 0 .next, .ask 0 .next, .ask 0 .drain]] ++ keys.flatMap (fun k =>
+    [[.mk 0, .base (.on 0 (.pop k)), .ask 0 .drain],
+     [.mk 0, .ask 0 .next, .base (.on 0 (.pop k)), .ask 0 .drain],
+     [.mk 0, .ask 0 .next, .base (.on 0 (.pop k)), .base (.add 0 0), .mk 0, .ask 0 .next, .ask 1 .drain, .ask 0 .drain],
+     [.mk 0, .ask 0 .next, .ask 0 .next, .base (.on 0 (.pop k)), .ask 0 .next, .ask 0 .drain]])
+
+def checkIter (f : S → IterSrc Nat Nat) : Option String :=
+  firstSome iterSchemas (fun s => firstSome iterProgs (fun p =>
+    let a := (irun f lower ⟨[s], []⟩ p).map (·.2)
+    let b := (irun iterSrc lower ⟨[s], []⟩ p).map (·.2)
+    if a = b then none
+    else some s!"iterator program {repr p} on {repr s.columns}: generated {repr a}, model {repr b}"))
 
 end SchemaBattery
